@@ -44,6 +44,7 @@ is always "from outside to inside" whereas ``object_pairs_hook`` is passed
 
 from __future__ import absolute_import
 
+import decimal
 import logging
 logger = logging.getLogger(__name__)
 
@@ -87,6 +88,7 @@ class JsonEncoder(json.JSONEncoder):
 
 
 NON_NUMBER_TYPES = tuple({list, dict, six.text_type, six.binary_type})
+NUMBER_TYPES = six.integer_types + (float, decimal.Decimal)
 
 
 class JsonDocument(HierDictDocument):
@@ -142,11 +144,22 @@ class JsonDocument(HierDictDocument):
             raise ValidationError(value)
         if value in (True, False):
             return int(value)
+        if value is not None and not isinstance(value, NUMBER_TYPES):
+            # a native value of another kind (date, set, ...) is not a number
+            raise ValidationError(value)
+        if isinstance(value, float) and issubclass(cls, Integer):
+            # an integral float is that integer; any other float is not one
+            if value != value or value in (float('inf'), float('-inf')) \
+                                                      or value != int(value):
+                raise ValidationError(value)
+            return int(value)
         return value
 
     def _ret_bool(self, cls, value):
-        if value is None or value in (True, False):
-            return value
+        if value is None:
+            return None
+        if value in (True, False):
+            return bool(value)  # 0 and 1 are booleans here, not integers
         raise ValidationError(value)
 
     def validate(self, key, cls, val):
